@@ -136,6 +136,12 @@ func (p *Subscribe) Unpack(r io.Reader) (err error) {
 			topic.NoLocal = (1 & (opts >> 2)) > 0
 			topic.RetainAsPublished = (1 & (opts >> 3)) > 0
 			topic.RetainHandling = (3 & (opts >> 4))
+			if topic.RetainHandling == 3 {
+				return codes.ErrProtocol
+			}
+			if topic.NoLocal && bytes.HasPrefix(topicFilter, []byte("$share/")) { // [MQTT-3.8.3-4]
+				return codes.ErrProtocol
+			}
 		} else {
 			topic.Qos = opts
 			if topic.Qos > Qos2 {
